@@ -434,13 +434,13 @@ theorem exceeded_spec {s s' : State} {id : Nat} {b : Backoffer} {cfg : Config} {
     · rcases hc with hc | hc <;> (rw [h2] at hc; contradiction)
   · rcases hc with ⟨hc, _⟩ | ⟨sig, hc, _⟩ <;> (rw [h2] at hc; contradiction)
 
-/-! ## `b.configs` covers the kinds that slept (true until the first merge) -/
+/-! ## `b.configs` covers the kinds that slept (every reachable state) -/
 
 def Cover (b : Backoffer) : Prop := ∀ p ∈ b.sleepMS, (cfgErr b.configs p.1).isSome = true
 
-/-- what holds of every back-offer as long as no merge happened: `configs` covers the kinds that slept, and the
-    ghost `tainted` is unset -/
-def MergeFree (b : Backoffer) : Prop := Cover b ∧ b.tainted = false
+/-- `configs` covers the kinds that slept (always), and — as long as no merge happened (`nm = true`) — the ghost
+    `tainted` is unset -/
+def MergeFree (nm : Bool) (b : Backoffer) : Prop := Cover b ∧ (nm = true → b.tainted = false)
 
 theorem AMap.add_mem {m : AMap} {k : String} {d : Int} {p : String × Int} (h : p ∈ AMap.add m k d) :
     p ∈ m ∨ p.1 = k := by
@@ -481,8 +481,8 @@ theorem cfgErr_append_self (l : List (String × String)) (n e : String) : (cfgEr
     · simp
     · exact ih
 
-theorem Cover_sleptB {b : Backoffer} {cfg : Config} {f : Fn} {m sl : Int} (h : MergeFree b) :
-    MergeFree (sleptB b cfg f m sl) := by
+theorem Cover_sleptB {nm : Bool} {b : Backoffer} {cfg : Config} {f : Fn} {m sl : Int} (h : MergeFree nm b) :
+    MergeFree nm (sleptB b cfg f m sl) := by
   refine ⟨?_, h.2⟩
   intro p hp
   simp only [sleptB] at hp ⊢
@@ -490,23 +490,24 @@ theorem Cover_sleptB {b : Backoffer} {cfg : Config} {f : Fn} {m sl : Int} (h : M
   · exact cfgErr_append_some _ (h.1 p hp)
   · rw [hp]; exact cfgErr_append_self _ _ _
 
-def SCover (s : State) : Prop := ∀ b ∈ s.bs, MergeFree b
+def SCover (nm : Bool) (s : State) : Prop := ∀ b ∈ s.bs, MergeFree nm b
 
 def NoMerge : Op → Prop
   | .merge _ _ => False
   | _ => True
 
-theorem Cover_nil {b : Backoffer} (h : b.sleepMS = []) (ht : b.tainted = false) : MergeFree b := by
-  refine ⟨?_, ht⟩
+theorem Cover_nil {nm : Bool} {b : Backoffer} (h : b.sleepMS = []) (ht : b.tainted = false) : MergeFree nm b := by
+  refine ⟨?_, fun _ => ht⟩
   intro p hp; rw [h] at hp; simp at hp
 
-theorem step_SCover {s : State} (h : SCover s) (op : Op) (hop : NoMerge op) : SCover (step s op).1 := by
-  have push : ∀ {x : Backoffer}, MergeFree x → SCover (s.push x) := by
+theorem step_SCover {nm : Bool} {s : State} (h : SCover nm s) (op : Op) (hop : nm = true → NoMerge op) :
+    SCover nm (step s op).1 := by
+  have push : ∀ {x : Backoffer}, MergeFree nm x → SCover nm (s.push x) := by
     intro x hx b hb
     rcases mem_push hb with hb | hb
     · exact h b hb
     · subst hb; exact hx
-  have set : ∀ {i : Nat} {x : Backoffer}, MergeFree x → SCover (s.setB i x) := by
+  have set : ∀ {i : Nat} {x : Backoffer}, MergeFree nm x → SCover nm (s.setB i x) := by
     intro i x hx b hb
     rcases mem_setB hb with hb | hb
     · exact h b hb
@@ -543,11 +544,27 @@ theorem step_SCover {s : State} (h : SCover s) (op : Op) (hop : NoMerge op) : SC
     split
     · rename_i b hb; exact push (h b (live_some hb).2.2)
     · exact h
-  | merge t f => exact hop.elim
+  | merge t f =>
+    cases nm with
+    | true => exact (hop rfl).elim
+    | false =>
+      simp only [step]
+      split
+      · rename_i b fb hb hfb
+        have hfc := (h fb (live_some hfb).2.2).1
+        split
+        · intro x hx
+          rcases mem_setB hx with hx | hx
+          · rcases mem_setB hx with hx | hx
+            · exact h x hx
+            · subst hx; exact ⟨hfc, fun hh => by cases hh⟩
+          · subst hx; exact ⟨hfc, fun hh => by cases hh⟩
+        · exact h
+      · exact h
   | reset id =>
     simp only [step]
     split
-    · rename_i b hb; exact set ⟨(h b (live_some hb).2.2).1, rfl⟩
+    · rename_i b hb; exact set ⟨(h b (live_some hb).2.2).1, fun _ => rfl⟩
     · exact h
   | resetMaxSleep id n =>
     simp only [step]
@@ -557,7 +574,7 @@ theorem step_SCover {s : State} (h : SCover s) (op : Op) (hop : NoMerge op) : SC
       · rename_i b' hb'
         refine set ?_
         rw [applyWeight_eq hb']
-        exact ⟨(h b (live_some hb).2.2).1, rfl⟩
+        exact ⟨(h b (live_some hb).2.2).1, fun _ => rfl⟩
       · exact h
     · exact h
   | cancel tok =>
@@ -573,12 +590,13 @@ theorem step_SCover {s : State} (h : SCover s) (op : Op) (hop : NoMerge op) : SC
       · exact h
     · exact h
 
-theorem run_SCover (ops : List Op) {s : State} (h : SCover s) (hops : ∀ op ∈ ops, NoMerge op) : SCover (run s ops) := by
+theorem run_SCover {nm : Bool} (ops : List Op) {s : State} (h : SCover nm s) (hops : nm = true → ∀ op ∈ ops, NoMerge op) :
+    SCover nm (run s ops) := by
   induction ops generalizing s with
   | nil => exact h
   | cons op r ih =>
     simp only [run, List.foldl_cons]
-    exact ih (step_SCover h op (hops op (by simp))) (fun o ho => hops o (by simp [ho]))
+    exact ih (step_SCover h op (fun hn => hops hn op (by simp))) (fun hn o ho => hops hn o (by simp [ho]))
 
 /-! ## parent chains -/
 
